@@ -9,7 +9,7 @@ use vstd::std_specs::cmp::{OrdSpecImpl, PartialOrdSpecImpl, PartialEqSpecImpl};
 use core::ops::{Add, Sub, Mul, Div, Neg, ShlAssign};
 use core::cmp::Ordering;
 
-// TRUSTED (integer/src/add_ops.rs): &IBig + &IBig, &UBig + &UBig are exact
+// TRUSTED (integer/src/add_ops.rs): &IBig + &IBig, &UBig + &UBig, UBig + UBig are exact
 impl<'a, 'b> AddSpecImpl<&'b IBig> for &'a IBig {
     open spec fn obeys_add_spec() -> bool { true }
     open spec fn add_req(self, rhs: &'b IBig) -> bool { true }
@@ -27,6 +27,16 @@ impl<'a, 'b> AddSpecImpl<&'b UBig> for &'a UBig {
 impl<'a, 'b> Add<&'b UBig> for &'a UBig { type Output = UBig;
     #[verifier::external_body]
     fn add(self, rhs: &'b UBig) -> UBig { unimplemented!() }
+}
+
+impl AddSpecImpl<UBig> for UBig {
+    open spec fn obeys_add_spec() -> bool { true }
+    open spec fn add_req(self, rhs: UBig) -> bool { true }
+    open spec fn add_spec(self, rhs: UBig) -> UBig { ubig_of(self.v() + rhs.v()) }
+}
+impl Add<UBig> for UBig { type Output = UBig;
+    #[verifier::external_body]
+    fn add(self, rhs: UBig) -> UBig { unimplemented!() }
 }
 
 // TRUSTED (integer/src/mul_ops.rs): exact square
